@@ -175,6 +175,7 @@ type event struct {
 	errText   string
 	gotToc    string // lookups: TOC digest of the returned layer
 	state     string // lookups that failed: VerifState of the ref right after the failure
+	staleMemo bool   // ... and: a memoised resolution of the layer's blob exists while the layer is not cached
 	reqs      int64
 	owned     bool // the client held a use of the key during the whole operation
 	panicked  string
@@ -251,7 +252,9 @@ func runClient(w *world, c *concCase, cl int, rng *prng.R, lg *[]event) {
 				e.err, e.errText = errClass(err), err.Error()
 				if k.spec != nil {
 					// off the normal path: only after a failure
-					e.state = w.state().describe(k.img.ref.String(), w)
+					st := w.state()
+					e.state = st.describe(k.img.ref.String(), w)
+					e.staleMemo = has(st.resolved[k.img.ref.String()], k.spec.built.Digest.String()) && !has(st.layers[k.img.ref.String()], k.dig.String())
 				}
 			} else {
 				guard(&e, func() { e.gotToc = l.Info().TOCDigest.String() })
@@ -536,7 +539,9 @@ func judgeConc(r *vf.Run, w *world, c *concCase, logs [][]event) {
 					lastZero = &all[j]
 				}
 			}
-			if lastZero != nil && resolvedSinceFault(e.key, e.call) {
+			if !e.staleMemo {
+				// not the "memo says resolved, layer gone" pattern: no release or fault label
+			} else if lastZero != nil && resolvedSinceFault(e.key, e.call) {
 				for _, o := range all {
 					if c.keys[o.key].imgNo != k.imgNo || o.key == e.key {
 						continue
